@@ -16,6 +16,7 @@ CONSTANTS
  ObsFilters = {"none", "t1"}
  ListConc = FALSE
  CowIndex = TRUE
+ InvAfterDel = TRUE
 INIT MInit
 NEXT MNext
 VIEW MView
